@@ -20,7 +20,7 @@ from ..model import UNKNOWN, AnchorError, Func, UnknownIdiom, attr_chain, local_
 from .c13_helpers import Defs, resolve_alias
 from .c15_helpers import (ASGI_RESPONSE, RESPONSE, Site, controlling_edges, header_sites, is_lower_call, key_case, raises_only,
                           reaching, response_receiver, store_exprs)
-from .common import implied, single, strip_await, walk_self
+from .common import implied, single, strip_await, walk_self, stmts_walk
 
 FACTORY = 'falcon.response_helpers._header_property'
 WSGI_EMIT = RESPONSE + '._wsgi_headers'
@@ -1270,6 +1270,66 @@ def r10_ascii_fallback(run):
               uses[0] if uses else 'secure_filename not used', where=g.loc())
 
 
+# ---------------------------------------------------------------------------
+# R12 append: "already present" is decided by presence, not by the value's truth
+# ---------------------------------------------------------------------------
+
+def r12_append_presence(run):
+    """append_header / append_link join the new value onto an existing one.
+    Whether the header exists is a question about the KEY: a header set to the
+    empty string exists (the map model holds '' for it), so the join decision
+    must be a membership test or an `is (not) None` test of a `.get()` result,
+    never the truthiness of the stored value.
+    W: set_header('X-A', ''); append_header('X-A', 'a') -> get_header gives 'a', the model ', a'."""
+    p = run.project
+    n = 0
+    for q in ('falcon.response.Response.append_header', 'falcon.response.Response.append_link'):
+        f = p.func(q)
+        run.use(f)
+        den, _al = store_exprs(p, f, '_headers')
+        # locals bound to <headers>.get(k) / <headers>.get(k, None)
+        got = {}
+        for a in walk_self(f.node):
+            if isinstance(a, ast.Assign) and len(a.targets) == 1 and isinstance(a.targets[0], ast.Name) and isinstance(a.value, ast.Call) \
+                    and isinstance(a.value.func, ast.Attribute) and a.value.func.attr == 'get' and den(a.value.func.value):
+                got[a.targets[0].id] = a
+        for node in walk_self(f.node):
+            if not isinstance(node, ast.If):
+                continue
+            # the branch that joins old and new value: reads the old value of the dict (subscript or the .get local) inside a + / += / f-string
+            joins = False
+            for x in stmts_walk(node.body):
+                if isinstance(x, ast.Subscript) and den(x.value) and isinstance(x.ctx, ast.Load):
+                    joins = True
+                if isinstance(x, ast.AugAssign) and isinstance(x.target, ast.Subscript) and den(x.target.value):
+                    joins = True
+                if isinstance(x, ast.Name) and x.id in got and isinstance(x.ctx, ast.Load):
+                    joins = True
+            if not joins:
+                continue
+            t = node.test
+            ok = None
+            if isinstance(t, ast.Compare) and len(t.ops) == 1:
+                if isinstance(t.ops[0], (ast.In, ast.NotIn)) and den(t.comparators[0]):
+                    ok = True
+                elif isinstance(t.ops[0], (ast.Is, ast.IsNot)) and isinstance(t.left, ast.Name) and t.left.id in got \
+                        and isinstance(t.comparators[0], ast.Constant) and t.comparators[0].value is None:
+                    ok = True
+            if ok is None:
+                base = t.operand if isinstance(t, ast.UnaryOp) and isinstance(t.op, ast.Not) else t
+                if (isinstance(base, ast.Name) and base.id in got) or (isinstance(base, ast.Subscript) and den(base.value)) \
+                        or (isinstance(base, ast.Call) and isinstance(base.func, ast.Attribute) and base.func.attr == 'get' and den(base.func.value)):
+                    ok = False
+            if ok is None:
+                # not a test about the header's presence (e.g. the Set-Cookie guard)
+                continue
+            n += 1
+            run.check(ok, '%s decides "header already present" by the key (membership / is not None), not by the truth of the stored value' % f.name,
+                      f, t, runtime_witness="resp.set_header('X-A', ''); resp.append_header('X-A', 'a'): get_header('x-a') == 'a' but the map model holds ', a'")
+    if n < 2:
+        raise AnchorError('presence tests of append_header/append_link not found (%d)' % n)
+
+
 def check(run):
     run.assume('receivers: `self` inside Response classes, parameters annotated Response, and the conventional name `resp` denote a response (A.6)')
     run.assume('http.cookies.Morsel semantics are library behaviour: keys are the RFC 6265 attribute names, OutputString() renders one cookie')
@@ -1280,6 +1340,7 @@ def check(run):
     run.rule('R4', r4_cookie_attributes, 'cookie parameter -> attribute wiring and presence guards', floor=28)
     run.rule('R5', r5_uri_helpers, 'URI-bearing helpers are percent-encoded', floor=9)
     run.rule('R6', r6_property_factory, 'header property factory: one key, None deletes, transform applied', floor=16)
+    run.rule('R12', r12_append_presence, 'append decides presence by key, not by the truth of the value', floor=2)
     run.rule('R10', r10_ascii_fallback, 'the ASCII fallback of a download filename is ASCII', floor=2)
     run.rule('R9', r9_single_pass, 'set_headers consumes its iterable argument in a single pass', floor=1)
     # the URI-bearing helpers (Location, Content-Location, Link) go through the
@@ -1287,5 +1348,6 @@ def check(run):
     # are necessary for "decoding returns the original" (shared with C10)
     from . import c10 as _c10
 
+    run.rule('R11', _c10._safe(_c10.r1_alphabets), 'allowed alphabets and pass-through guard of the encoders behind the URI-bearing helpers (shared with C10 R1)', floor=14)
     run.rule('R7', _c10._safe(_c10.r5_check_escaped), 'check-escaped encoder behind the URI-bearing helpers (shared with C10 R5)', floor=8)
     run.rule('R8', _c10._safe(_c10.r2_escape_shape), 'escape shape and decoder table behind the URI-bearing helpers (shared with C10 R2)', floor=10)
